@@ -207,6 +207,10 @@ func implC04(line string) string {
 		return implEarly(f)
 	case "early2":
 		return implEarly2(f)
+	case "resv":
+		return implResv(f)
+	case "resvtok":
+		return implResvTok(f)
 	}
 	return "bad-op"
 }
@@ -313,4 +317,5 @@ func genC04(c *h.Ctx) {
 	}
 	genEarly(c)
 	genEarly2(c)
+	genResv(c)
 }
